@@ -4,8 +4,9 @@ import vlib
 
 TARGETS = ["Base/Num.vo", "Base/Corr.vo", "C02/Model.vo", "C02/Spec.vo", "C02/Corr.vo",
            "C02/ProofsInt.vo", "C02/ProofsReal.vo", "C02/ProofsRed.vo", "C02/ProofsConv.vo",
-           "C02/Ext.vo", "C02/ProofsExt.vo", "C02/CorrExt.vo", "C02/Props.vo"]
-PROPS = ["C02/Props.v"]
+           "C02/Ext.vo", "C02/ProofsExt.vo", "C02/CorrExt.vo", "C02/Props.vo",
+           "C02/ModelVec.vo", "C02/ProofsVec.vo", "C02/PropsVec.vo"]
+PROPS = ["C02/Props.v", "C02/PropsVec.v"]
 CORPUS = os.path.join(vlib.ROOT, "corpus/C02/corpus.jsonl")
 PROPOSED = os.path.join(vlib.ROOT, "corpus/C02/known_findings_proposed.json")
 
@@ -23,12 +24,19 @@ PARTIAL = (
     "Exp/Log/Log1p/Sin/Cos/Tan/Sinh/Cosh/Tanh/Erf/Erfc/Gamma/Sqrt as theorems on every float type, LogAdd = ln(e^a+e^b) and LogSub = ln(e^a-e^b) for ALL pairs of ER "
     "(a<b gives NaN, a=b gives -oo, all Inf/NaN combinations), Log1pExp (+oo, 0, NaN at +oo, -oo, NaN), Sigmoid/Logistic (1, 0, NaN), SmoothMax of the empty vector = NaN, "
     "LogSmoothMax = SmoothMax for every vector of NON-NEGATIVE elements (zeros included, all-zero vector gives 0) and NaN as soon as one element is negative; "
+    "(2c) OPERAND REPRESENTATIONS (coq/C02/ModelVec.v, PropsVec.v): for the seven methods taking a vector or matrix (SmoothMax, LogSmoothMax, Vmean, VdotV, Vnorm, Mtrace, Mnorm) the operand is a "
+    "representation term - dense, sparse (stored entries incl. explicit zeros, implicit zeros elsewhere), Slice of a vector, Row/Col/Diag of a matrix, T() and Slice of a dense or sparse matrix, nested - "
+    "with its abstract element sequence velems / mat_at (every position of a sparse operand is an element: the stored scalar or the container's zero); the model reads it as the Go method does "
+    "(index loop over Dim()/ConstAt, or for Vnorm the iterator, which skips the zeros of a sparse operand) and the result is proved to be the named function of ALL elements for EVERY representation: "
+    "SmoothMax (XR, and ER), LogSmoothMax = SmoothMax for positive (XR) and for non-negative operands (ER: each implicit zero adds e^0 = 1 to the denominator and nothing to the numerator), Vmean, VdotV of two "
+    "differently represented operands, Vnorm = sqrt(sum of squares of all elements) although the iterator skips zeros, Mtrace = sum of mat_at a i i, Mnorm = sum of squares of all elements; "
     "(3) Real64 value path = Float64 value path for every op (every carrier; the concrete SQRT excluded, its two bodies differ); (4) ConvertScalar/ConvertConstScalar yield the "
     "requested registered type holding the getter-converted value; refutations for the known findings. NOT proved: the step from exact reals to "
     "binary64/binary32 rounding (covered per sampled case: bit-exact replay on Coq primitive floats with float32 rounding via "
     "SpecFloat.binary_normalize 24 128, innocuous double rounding of + - * / assumed for Float32), the accuracy of Go's math.* (certified per "
     "recorded call by Coq-Interval goals, capped per run; the special-value table is checked against every recorded call with a non-finite argument or result) and of math.Gamma/Lgamma and /repo/special (opaque; only same-routing across types is "
-    "checked), float->int conversions of NaN/out-of-range values (implementation-defined in Go: excluded and counted), signed zeros and overflow/underflow on the extended carrier "
+    "checked; special.LogErfc is additionally certified per recorded call against ln(1 - erf x), erf the integral, by Coq-Interval on the whole negative side and up to x = 3: a wrong branch "
+    "selection there fails the certificate), float->int conversions of NaN/out-of-range values (implementation-defined in Go: excluded and counted), signed zeros and overflow/underflow on the extended carrier "
     "(R has one zero; math.Pow at non-finite operands only for the exponents 0.5 and 2), derivative slots (C01).")
 
 
@@ -155,7 +163,10 @@ def run(ctx):
                     "C02_logsmoothmax_agrees_with_smoothmax", "C02_vnorm", "C02_real64_value_path_binary", "C02_convert_scalar",
                     "C02_concrete_ABS", "C02_ext_logsub", "C02_ext_logsmoothmax_nonnegative"]
             thms = [t for t in thms if t in keep]
-        ctx.cov["print_assumptions"] = vlib.print_assumptions("C02", [("C02.Props", thms)], ctx.dir)
+        vthms = [t for t in vlib.theorem_names(os.path.join(vlib.COQ, "C02/PropsVec.v")) if t.startswith("C02_vec") or t.startswith("C02_mat")]
+        if ctx.tier == "quick":
+            vthms = [t for t in vthms if t in ("C02_vec_vnorm", "C02_vec_ext_logsmoothmax_nonnegative", "C02_mat_mtrace")]
+        ctx.cov["print_assumptions"] = vlib.print_assumptions("C02", [("C02.Props", thms), ("C02.PropsVec", vthms)], ctx.dir)
     # optional stretch target: agreement with the value table of the C01 model (another builder's file; never the decision)
     if os.path.exists(os.path.join(vlib.COQ, "C01/Model.v")):
         ok2, _ = vlib.coq_make(["C02/AgreeC01.vo"])
